@@ -1,18 +1,28 @@
 package prod
 
-// CGGMP21 threshold ECDSA (4 rounds, Paillier + ring-Pedersen auxiliary material) through the networked runner API. The auxiliary
-// material (2048-bit Blum modulus and ring-Pedersen parameters per party; the protocol's range parameters need at least 1792 bits
-// on a 256-bit curve) takes minutes to sample, so it is sampled once per process by the CGGMP21 trusted dealer and re-attached to base
-// shards that come from trusted dealing, Gennaro or Canetti over the same holders.
+// CGGMP21 threshold ECDSA (4 rounds + red alert; Paillier and ring-Pedersen auxiliary material) through the networked runner API,
+// with every cosigning aggregator and the stateless aggregator compared. Quorums of three and more signers are always included:
+// the per-party accumulations of rounds 2-4 only show with at least three signers.
+//
+// The auxiliary material (a 2048-bit Paillier-Blum modulus and ring-Pedersen parameters over a product of two 1024-bit safe primes
+// per party; the protocol's range parameters need at least 1792 bits on a 256-bit curve) takes minutes to sample. A pool for the
+// holders 1..5 is therefore sampled once with the library's own samplers, kept in the driver's cache directory (-cache) as the
+// CBOR encoding of the parties' AuxInfo, and re-attached - restricted to the policy's holders - to base shards that come from
+// trusted dealing, Gennaro or Canetti.
 
 import (
 	"fmt"
+	"io"
+	"os"
+	"path/filepath"
+	"sync"
 
 	"github.com/bronlabs/bron-crypto/pkg/base/algebra"
 	"github.com/bronlabs/bron-crypto/pkg/base/curves"
-	"github.com/bronlabs/bron-crypto/pkg/base/prng/csprng"
+	"github.com/bronlabs/bron-crypto/pkg/base/serde"
+	"github.com/bronlabs/bron-crypto/pkg/commitments/intcom"
+	"github.com/bronlabs/bron-crypto/pkg/encryption/paillier"
 	"github.com/bronlabs/bron-crypto/pkg/mpc/signatures/ecdsa/cggmp21"
-	cgdealer "github.com/bronlabs/bron-crypto/pkg/mpc/signatures/ecdsa/cggmp21/keygen/trusteddealer"
 	cgsigning "github.com/bronlabs/bron-crypto/pkg/mpc/signatures/ecdsa/cggmp21/signing"
 	"github.com/bronlabs/bron-crypto/pkg/network"
 	"github.com/bronlabs/bron-crypto/pkg/signatures/ecdsa"
@@ -20,70 +30,191 @@ import (
 
 const cggmpKeyLen = 2048
 
-var _ = csprng.ThreadSafePrng{}
+var cacheDir string
 
-// cggmpAux: auxiliary material for holders {1,2,3}, sampled once.
-func cggmpAux[P curves.Point[P, B, S], B algebra.PrimeFieldElement[B], S algebra.PrimeFieldElement[S]](d *ecDesc[P, B, S]) (map[ID]*cggmp21.AuxInfo, string) {
-	ck := "cggmpaux/" + d.g.name
-	type res struct {
-		aux map[ID]*cggmp21.AuxInfo
-		err string
+type cggmpPoolT struct {
+	psk     map[ID]*paillier.SecretKey
+	tk      map[ID]*intcom.TrapdoorKey
+	refresh []byte
+	origin  string
+	err     string
+}
+
+var (
+	cggmpPool   *cggmpPoolT
+	cggmpPoolID = []ID{1, 2, 3, 4, 5}
+)
+
+func (p *cggmpPoolT) aux(hs []ID) (map[ID]*cggmp21.AuxInfo, error) {
+	out := map[ID]*cggmp21.AuxInfo{}
+	for _, id := range hs {
+		ppk := map[ID]*paillier.PublicKey{}
+		cpk := map[ID]*intcom.CommitmentKey{}
+		for _, o := range hs {
+			if o != id {
+				ppk[o] = p.psk[o].Public()
+				cpk[o] = p.tk[o].Export()
+			}
+		}
+		a, err := cggmp21.NewAuxInfo(p.psk[id], ppk, p.tk[id], cpk, p.refresh)
+		if err != nil {
+			return nil, err
+		}
+		out[id] = a
 	}
-	if v, ok := keyCache[ck]; ok {
-		r := v.(*res)
-		return r.aux, r.err
+	return out, nil
+}
+
+func loadCggmpPool() *cggmpPoolT {
+	if cggmpPool != nil {
+		return cggmpPool
 	}
-	r := &res{aux: map[ID]*cggmp21.AuxInfo{}}
-	keyCache[ck] = r
-	as, err := policyByName("th2of3").Pol.Build()
-	if err != nil {
+	p := &cggmpPoolT{psk: map[ID]*paillier.SecretKey{}, tk: map[ID]*intcom.TrapdoorKey{}}
+	cggmpPool = p
+	file := ""
+	if cacheDir != "" {
+		file = filepath.Join(cacheDir, fmt.Sprintf("cggmp_pool_%d.cbor", cggmpKeyLen))
+		if data, err := os.ReadFile(file); err == nil {
+			if m, err := serde.UnmarshalCBOR[map[uint64][]byte](data); err == nil {
+				ok := true
+				for _, id := range cggmpPoolID {
+					a, err := serde.UnmarshalCBOR[*cggmp21.AuxInfo](m[uint64(id)])
+					if err != nil || a.PaillierSecretKey() == nil || a.RingPedersenSecretKey() == nil {
+						ok = false
+						break
+					}
+					p.psk[id], p.tk[id], p.refresh = a.PaillierSecretKey(), a.RingPedersenSecretKey(), a.RefreshID()
+				}
+				if ok {
+					p.origin = "cache"
+					return p
+				}
+			}
+		}
+	}
+	// sample: 2 x 5 independent samplers in parallel
+	var mu sync.Mutex
+	var wg sync.WaitGroup
+	fail := func(err error) {
+		mu.Lock()
+		p.err = errStr(err)
+		mu.Unlock()
+	}
+	for _, id := range cggmpPoolID {
+		wg.Add(2)
+		rd1, rd2 := reader(), reader()
+		go func() {
+			defer wg.Done()
+			sk, err := paillier.SampleBlumSecretKey(cggmpKeyLen, rd1)
+			if err != nil {
+				fail(err)
+				return
+			}
+			mu.Lock()
+			p.psk[id] = sk
+			mu.Unlock()
+		}()
+		go func() {
+			defer wg.Done()
+			tk, err := intcom.SampleTrapdoorKey(cggmpKeyLen, rd2)
+			if err != nil {
+				fail(err)
+				return
+			}
+			mu.Lock()
+			p.tk[id] = tk
+			mu.Unlock()
+		}()
+	}
+	wg.Wait()
+	if p.err != "" {
+		return p
+	}
+	p.refresh = make([]byte, 32)
+	if _, err := io.ReadFull(reader(), p.refresh); err != nil {
 		panic(err)
 	}
-	shards, err := cgdealer.Deal(d.curve, as, cggmpKeyLen, reader())
-	if err != nil {
-		r.err = errStr(err)
-		return nil, r.err
+	p.origin = "sampled"
+	if file != "" {
+		if all, err := p.aux(cggmpPoolID); err == nil {
+			m := map[uint64][]byte{}
+			for id, a := range all {
+				data, err := serde.MarshalCBOR(a)
+				if err != nil {
+					return p
+				}
+				m[uint64(id)] = data
+			}
+			if data, err := serde.MarshalCBOR(m); err == nil {
+				_ = os.MkdirAll(cacheDir, 0o755)
+				tmp := fmt.Sprintf("%s.%d", file, os.Getpid())
+				if os.WriteFile(tmp, data, 0o600) == nil {
+					_ = os.Rename(tmp, file)
+				}
+			}
+		}
 	}
-	for id, sh := range shards {
-		r.aux[id] = sh.AuxInfo()
-	}
-	return r.aux, ""
+	return p
+}
+
+type cggmpCase struct {
+	pol    string
+	quorum []ID
+	kind   string
+	src    int
 }
 
 func signCGGMP(r int) {
-	if !want("sign:cggmp21") || (!thor && len(only) == 0) {
-		return // minutes of parameter sampling: thorough tier, or on request (-only sign:cggmp21)
+	if !want("sign:cggmp21") {
+		return
 	}
-	signCGGMPOn(dK256, r)
-	if thor {
-		signCGGMPOn(dP256, r)
+	s := int(seed) + r
+	if !thor {
+		// two real runs with three signers, one refusal
+		second := []cggmpCase{{"th3of5", []ID{1, 3, 5}, "minimal", 0}, {"cnf3", []ID{1, 2, 3}, "nonminimal", 1}, {"gate3", []ID{1, 2, 3}, "nonminimal", 1},
+			{"th3of5", []ID{2, 3, 4}, "minimal", 2}}[s%4]
+		signCGGMPOn(dK256, []cggmpCase{{"th2of3", []ID{1, 2, 3}, "nonminimal", s % 3}, second, {"th3of5", []ID{2, 5}, "unqualified", 0}})
+		return
 	}
+	all := []cggmpCase{}
+	for pi, pn := range []string{"th2of3", "cnf3", "gate3"} {
+		for qi, q := range quorumCases(policyByName(pn), -1, 0, 1, s) {
+			all = append(all, cggmpCase{pn, q.ids, q.kind, pi + qi + s})
+		}
+	}
+	all = append(all, cggmpCase{"th3of5", []ID{1, 2, 3}, "minimal", s}, cggmpCase{"th3of5", []ID{2, 4, 5}, "minimal", s + 1},
+		cggmpCase{"th3of5", []ID{1, 2, 4, 5}, "nonminimal", s + 1}, cggmpCase{"th3of5", []ID{3, 4}, "unqualified", s})
+	signCGGMPOn(dK256, all)
+	signCGGMPOn(dP256, []cggmpCase{{"th2of3", []ID{1, 2, 3}, "nonminimal", s + 1}, {"cnf3", []ID{1, 3}, "minimal", s}, {"gate3", []ID{2, 3}, "unqualified", s}})
 }
 
-func signCGGMPOn[P curves.Point[P, B, S], B algebra.PrimeFieldElement[B], S algebra.PrimeFieldElement[S]](d *ecDesc[P, B, S], r int) {
-	for pi, pn := range []string{"th2of3", "gate3"} {
-		np := policyByName(pn)
-		for qi, q := range quorumCases(np, lim(1, 3), 1, 99, pi+r+int(seed)) {
-			msgClass := msgClasses[(pi+qi+r)%len(msgClasses)]
-			name := fmt.Sprintf("sign:cggmp21:%s:%s:%s", d.g.name, np.Name, q.kind)
-			if !takeCase(name) {
-				continue
-			}
-			cggmpLine(d, np, keyFor(d.g, np, pi+qi+int(seed)+r), q, msgClass)
+func signCGGMPOn[P curves.Point[P, B, S], B algebra.PrimeFieldElement[B], S algebra.PrimeFieldElement[S]](d *ecDesc[P, B, S], cases []cggmpCase) {
+	for i, c := range cases {
+		np := policyByName(c.pol)
+		name := fmt.Sprintf("sign:cggmp21:%s:%s:%s", d.g.name, np.Name, c.kind)
+		if !takeCase(name) {
+			continue
 		}
+		cggmpLine(d, np, keyFor(d.g, np, c.src), quorumCase{c.quorum, c.kind}, msgClasses[(i+int(seed))%len(msgClasses)])
 	}
 }
 
 func cggmpLine[P curves.Point[P, B, S], B algebra.PrimeFieldElement[B], S algebra.PrimeFieldElement[S]](d *ecDesc[P, B, S], np namedPolicy, km *keyMat[P, S], q quorumCase, msgClass string) {
-	ev := newSignEv("cggmp21", "ecdsa", d.g.name, np, km.src+"+cggmpdealer-aux", q, "runner", msgClass)
+	ev := newSignEv("cggmp21", "ecdsa", d.g.name, np, km.src+"+aux-pool", q, "runner", msgClass)
 	defer func() { w.Emit(ev) }()
 	if km.err != "" {
 		ev["keyErr"] = km.err
 		return
 	}
-	aux, aerr := cggmpAux(d)
-	if aerr != "" {
-		ev["keyErr"] = aerr
+	pool := loadCggmpPool()
+	if pool.err != "" {
+		ev["keyErr"] = "aux pool: " + pool.err
+		return
+	}
+	ev["auxOrigin"] = pool.origin
+	aux, err := pool.aux(holders(np.Pol))
+	if err != nil {
+		ev["keyErr"] = "aux: " + errStr(err)
 		return
 	}
 	msg := msgOf(msgClass)
@@ -96,7 +227,18 @@ func cggmpLine[P curves.Point[P, B, S], B algebra.PrimeFieldElement[B], S algebr
 			ev["keyErr"] = "NewShard: " + errStr(err)
 			return
 		}
-		shards[id] = sh
+		// a shard is stored and loaded between key generation and signing
+		data, err := serde.MarshalCBOR(sh)
+		if err != nil {
+			ev["keyErr"] = "shard marshal: " + errStr(err)
+			return
+		}
+		back, err := serde.UnmarshalCBOR[*cggmp21.Shard[P, B, S]](data)
+		if err != nil {
+			ev["keyErr"] = "shard unmarshal: " + errStr(err)
+			return
+		}
+		shards[id] = back
 	}
 	runners := map[ID]network.Runner[*cgsigning.SignResult[P, B, S]]{}
 	for _, id := range q.ids {
@@ -130,7 +272,10 @@ func cggmpLine[P curves.Point[P, B, S], B algebra.PrimeFieldElement[B], S algebr
 		sig, err := out[id].PartialSignatureCosigningAggregator().Aggregate(psigs)
 		take(fmt.Sprintf("agg:%d", id), sig, err)
 	}
-	if plain, err := cgsigning.NewNonCosigningAggregator(d.curve); err == nil {
+	plain, err := cgsigning.NewNonCosigningAggregator(d.curve)
+	if err != nil {
+		take("agg:plain", nil, err)
+	} else {
 		sig, err := plain.Aggregate(psigs)
 		take("agg:plain", sig, err)
 	}
